@@ -447,7 +447,9 @@ def run(ctx):
             norm = lambda xs: sorted(_norm_callee(x) for x in xs)
             if norm(so[0]) == norm(sb[0]) and so[1] == sb[1]:
                 ctx.ok('C11.5-twin-pairs', inst, 'same recipe')
-            elif {x for x in norm(so[0]) if x.startswith('X::')} ^ {x for x in norm(sb[0]) if x.startswith('X::')}:
+            elif bool({x for x in norm(so[0]) if x.startswith('X::')} - {x for x in norm(sb[0]) if x.startswith('X::')}) != \
+                    bool({x for x in norm(sb[0]) if x.startswith('X::')} - {x for x in norm(so[0]) if x.startswith('X::')}):
+                # (exactly one side has a helper call the other lacks; two DIFFERENT helpers on the two sides is a disagreement and stays a violation)
                 # one copy has been factored through a helper of its own module that the other copy does not call: the arms can no longer be
                 # compared operation by operation; each side is decided on its own by the ordering rules (C11.1 pairs / ranks, C12.4 / C12.5 recipes,
                 # field comparisons), which run for both term types
